@@ -88,6 +88,24 @@ def explore(ctx: common.Ctx, n_jobs: int, opts: dict, procs: int = 14) -> List[d
     for r in done:
         r.setdefault('S_B', r.get('S_A', set()))
         r['real_set'] = set(r['real'])
+    # ---- Lean: Layer G checkpoints on the graphs the real run built
+    glines, gidx = [], []
+    for i, r in enumerate(done):
+        for st, ln, npaths in r.get('cp', []):
+            if ln is None:
+                stats['cp_skipped_too_many_paths'] = stats.get('cp_skipped_too_many_paths', 0) + 1
+                continue
+            glines.append(ln)
+            gidx.append((i, st, npaths))
+    if glines:
+        gouts = ctx.lean(glines)
+        for r in done:
+            r['cp_res'] = []
+        if gouts is None:
+            ctx.add_broken('correspondence', 'G', 'native driver unavailable: checkpoints not evaluated')
+        else:
+            for (i, st, npaths), o in zip(gidx, gouts):
+                done[i]['cp_res'].append((st, npaths, o))
     # ---- Lean: witnesses (stateful: set, then w…)
     if opts.get('witness', False):
         wlines, widx = [], []
@@ -130,6 +148,42 @@ def explore(ctx: common.Ctx, n_jobs: int, opts: dict, procs: int = 14) -> List[d
                 done[k[0]]['witness_completion'][k[1][2]] = o
     shutil.rmtree(gen_ref.WORK, ignore_errors=True)
     return res
+
+
+def judge_checkpoints(ctx: common.Ctx, res: List[dict], side: str):
+    """Layer G.  `side` = 'missing' (C01: the graph lost a sequence / a required cut) or
+    'extra' (C02: the graph denotes a sequence no combination yields).  A failed checkpoint is
+    a broken correspondence (an internal representation changed or a stage went wrong), not a
+    violation by itself: the end-to-end differential on the same input is the failing-input
+    search."""
+    import re as _re
+    nbad = 0
+    for r in res:
+        for st, npaths, o in r.get('cp_res', []):
+            enz = r['desc']['kw']['cleavage_rule']
+            ctx.evaluated('G-' + st, f"{r['seed']}", npaths > 3, None)
+            ctx.count('G-' + st, 'paths', npaths)
+            if o == 'ok':
+                continue
+            m = _re.match(r'bad:(\w+) f=(\d)(?: extra=(\d+) missing=(\d+))?', o)
+            kind = m.group(1) if m else 'other'
+            extra = int(m.group(3) or 0) if m else 0
+            missing = int(m.group(4) or 0) if m else 0
+            if kind == 'cuts' and wide_lookahead(enz):
+                # known finding wide-lookahead-rule-context-split: sites are decided on node
+                # fragments for these three enzymes; the cut checkpoint is not asserted for them
+                ctx.count('G-' + st, 'cuts_not_asserted_wide_lookahead')
+                continue
+            relevant = (side == 'missing' and (missing > 0 or kind in ('cuts', 'other'))) or \
+                       (side == 'extra' and (extra > 0 or kind in ('codons', 'labels', 'other')))
+            if not relevant:
+                continue
+            nbad += 1
+            ctx.count('G-' + st, 'failed')
+            if nbad <= 3:
+                ctx.add_broken('correspondence', f'G:{st}',
+                               json.dumps({'verdict': o, 'case': describe(r)}, default=str)[:2500])
+    return nbad
 
 
 def describe(r: dict) -> dict:
